@@ -183,6 +183,7 @@ class Ctx:
         env = {"JAVA_TOOL_OPTIONS": "-Xss1g -Dtlc2.tool.queue.IStateQueue=StateDeque", "TRACE": trace_file}
         rc, out, dt = self._tlc(name + ".tla", cfg, 1, timeout, env=env, heap=heap)
         nlines = sum(1 for _ in open(trace_file))
+        self._count_runs(name, trace_file)
         st = {"stage": "trace", "model": cfg, "events": nlines, "runs": runs, "wall_s": round(dt, 1), "label": label}
         self.cov["stages"].append(st)
         for fid in sorted(set(re.findall(r'"KNOWN-FINDING", "(\w+)"', out))):
@@ -284,6 +285,27 @@ class Ctx:
                     n += 1
         return dst, n
 
+    _NT = re.compile(r'"act":"(?!pass)|"ty":"(stream_data_blocked|data_blocked|streams_blocked|reset_stream|stop_sending|max_stream_data|max_data|max_streams)"'
+                     r'|"ev":"(packet_lost|app_reset|app_stop|rerr|werr|dropped|ctl|stall)"|"mutated":true|"drop_permille":[1-9]|"mode":"(lossy|vanish)"'
+                     r'|"blackhole":\[\[|"ok":false|"persistent":true|"ev":"(lost|ecn|push_full)"')
+
+    def _count_runs(self, spec, f):
+        """distinct non-trivial runs of a validated trace: a run is what lies between two reset events; it is non-trivial
+        if something beyond the straight-line case happened in it (a network fault, a flow-control or reset frame, an
+        error, a mutated input, a loss signal ...)"""
+        cur, flag, n = hashlib.sha1(), False, 0
+        for line in open(f):
+            if '"ev":"reset"' in line:
+                if flag and n:
+                    self._distinct.add(spec + ":" + cur.hexdigest())
+                cur, flag, n = hashlib.sha1(), False, 0
+            cur.update(line.encode())
+            n += 1
+            if not flag and self._NT.search(line):
+                flag = True
+        if flag and n:
+            self._distinct.add(spec + ":" + cur.hexdigest())
+
     def validate_families(self, traces, spec, kinds, cfg=None, per_endpoint=False, only=None, primary_only=True):
         ok = True
         views = [(fam, ep) for fam in traces for ep in (("c", "s") if per_endpoint else (None,))]
@@ -292,21 +314,6 @@ class Ctx:
             tag = fam + ("-" + ep if ep else "")
             f, n = self.filtered(tf, kinds, "%s-%s.ndjson" % (spec, tag), ep=ep, only=only, primary_only=primary_only)
             ok &= self.trace(spec, f, runs=runs, label=tag, cfg=cfg)
-            # distinct non-trivial runs: by content hash; non-trivial = the run contains a network fault or a
-            # flow-control / reset / stop frame (i.e. something beyond the straight-line transfer)
-            nt = re.compile(r'"act":"(?!pass)|"ty":"(stream_data_blocked|data_blocked|streams_blocked|reset_stream|stop_sending|max_stream_data|max_data|max_streams)"|"ev":"(packet_lost|app_reset|app_stop)"')
-            cur, flag = hashlib.sha1(), False
-            def close_run():
-                if flag:
-                    self._distinct.add(spec + ":" + cur.hexdigest())
-            for line in open(f):
-                if '"ev":"reset"' in line:
-                    close_run()
-                    cur, flag = hashlib.sha1(), False
-                cur.update(line.encode())
-                if not flag and nt.search(line):
-                    flag = True
-            close_run()
             if len(self.cov["samples"]) < 3:
                 with open(f) as fh:
                     lines = [next(fh, "") for _ in range(400)]
